@@ -402,3 +402,41 @@ def run_errkind(prop, S, outdir, rebaseline=False):
         res = Result(ob, "F", "verified", "", 0, meta)
     info = {"unit": "engine_f_errkind", "engine": "frame audit (vx inventory)", "cmd": f"error constructors, `?` operands and Err(..) values of {cur['functions']} parser/lexer functions (expanded source) vs contracts/parser_error_points.json", "wall_s": 0.0, "smt_s": 0.0, "trusted": [], "functions": ["parsing::parser::Parser::*", "parsing::lexer::*", "template::Template::new (the unreachable! this keeps unreachable)"], "assumptions": ["engine F (error kind): an induction over the parser's functions by syntactic classes (calls of parser/lexer functions carry the hypothesis; expect_token! blocks; `.map_err(|e| Error::syntax_error(..))`); error values re-raised from an `Err(e)` pattern are taken to come from the lexer or the parser itself", "engine F (error kind): `Error::new(ErrorKind::SyntaxError(..))` and `Error::syntax_error(..)` are the syntax constructors; what they build is not examined"]}
     return [res], [info]
+
+
+def run_b64consts(prop, S, outdir):
+    """C20: the two decode engines tera-contrib defines itself are what the Verus unit `b64` assumes of them:
+    STANDARD_DECODE = (standard alphabet, padding Indifferent), URL_SAFE_DECODE = (URL-safe alphabet, Indifferent)"""
+    from driver import Result
+    from sources import REPO
+
+    if prop not in ("C20", "ALL"):
+        return [], []
+    ob = "frame/b64/decode_engines"
+    meta = {"unit": "engine_f", "props": ["C20"], "what": "the decode engines defined in base64.rs have the alphabet their name says and accept padded and unpadded input"}
+    try:
+        t = re.sub(r"\s+", "", open(os.path.join(REPO, "tera-contrib/src/base64.rs")).read())
+    except Exception as e:  # noqa: BLE001
+        return [Result(ob, "F", "undecided", f"cannot read base64.rs: {e}", 0, meta)], []
+    want = {"STANDARD_DECODE": "alphabet::STANDARD", "URL_SAFE_DECODE": "alphabet::URL_SAFE"}
+    found = dict(re.findall(r"const(\w+_DECODE):[\w:]+=([^;]+);", t))
+    used = set(re.findall(r"\b(\w+_DECODE)\.decode\(", t))
+    bad = []
+    for name in sorted(used | set(found)):
+        d = found.get(name)
+        if d is None:
+            continue
+        if name in want and (("&base64::" + want[name] + ",") not in d and ("&" + want[name] + ",") not in d):
+            bad.append(f"{name} is not built on {want[name]}")
+        if "DecodePaddingMode::Indifferent" not in d:
+            bad.append(f"{name} does not decode with DecodePaddingMode::Indifferent")
+    if not found:
+        res = Result(ob, "F", "undecided", "frame changed, re-audit: no *_DECODE engine definition found in base64.rs", 0, meta)
+    elif bad:
+        res = Result(ob, "F", "false", "; ".join(bad), 0, dict(meta, fn="tera-contrib::base64"))
+    elif set(found) - set(want):
+        res = Result(ob, "F", "undecided", "frame changed, re-audit: unknown decode engine(s) " + ", ".join(sorted(set(found) - set(want))), 0, meta)
+    else:
+        res = Result(ob, "F", "verified", "", 0, meta)
+    info = {"unit": "engine_f_b64", "engine": "frame audit (text)", "cmd": f"{len(found)} decode engine definitions of tera-contrib/src/base64.rs", "wall_s": 0.0, "smt_s": 0.0, "trusted": [], "functions": ["tera-contrib::base64::{STANDARD_DECODE, URL_SAFE_DECODE}"], "assumptions": ["engine F (b64): the definitions are compared as text (alphabet constant and DecodePaddingMode named in them)"]}
+    return [res], [info]
